@@ -647,8 +647,14 @@ func (h *hist) op() {
 		g := rng.Pick(r, gws)
 		i := r.Intn(len(*prs))
 		(*prs)[i] = p.ParentRef(g.NN.Namespace, g.NN.Name, "")
-		if r.Chance(15, 100) {
+		switch k := r.Intn(100); {
+		case k < 12:
 			(*prs)[i].Kind = ptr(gatewayv1.Kind("Service"))
+		case k < 24: // explicit empty group: the core API group, not a Gateway API Gateway
+			(*prs)[i].Group = ptr(gatewayv1.Group(""))
+		case k < 30:
+			(*prs)[i].Group = ptr(gatewayv1.Group("core"))
+			(*prs)[i].Kind = ptr(gatewayv1.Kind("Gateway"))
 		}
 		bump(o)
 		h.upsert(o)
